@@ -311,6 +311,34 @@ impl StatefulWidget for InputWidget {
     }
 }
 
+#[cfg(feature = "verif-hooks")]
+impl InputState {
+    /// Verification hook: the private editor state as a JSON object (text as code points).
+    pub fn verif_json(&self) -> String {
+        fn cps<I: Iterator<Item = char>>(it: I) -> String {
+            let v: Vec<String> = it.map(|c| (c as u32).to_string()).collect();
+            format!("[{}]", v.join(","))
+        }
+        let hist: Vec<String> = self.history.iter().map(|h| cps(h.chars())).collect();
+        let (comps, cidx) = match &self.curr_completions {
+            Some((c, i)) => {
+                let v: Vec<String> = c.iter().map(|x| cps(x.iter().cloned())).collect();
+                (format!("[{}]", v.join(",")), *i as i64)
+            }
+            None => ("null".to_string(), -1),
+        };
+        format!(
+            "{{\"text\":{},\"cursor\":{},\"hist\":[{}],\"hidx\":{},\"comps\":{},\"cidx\":{}}}",
+            cps(self.input.iter().cloned()),
+            self.input_index,
+            hist.join(","),
+            self.history_index.map(|i| i as i64).unwrap_or(-1),
+            comps,
+            cidx
+        )
+    }
+}
+
 #[cfg(test)]
 mod tests {
     use super::*;
